@@ -55,6 +55,33 @@ MUTATIONS = [
      ['bid128_class'], 'bid_internal.rs: __mul_64x64_to_128 carries PM >> 31 instead of PM >> 32 (helper under bid128_class)'),
     ('M17', NC, '    (x.w[BID_HIGH_128W] & MASK_SNAN) == MASK_SNAN\n', '    (x.w[BID_HIGH_128W] & MASK_NAN) == MASK_SNAN\n', 0,
      ['bid128_is_signaling'], 'is_signaling: MASK_SNAN -> MASK_NAN on the left'),
+    # ---- group D (total order, scalbln) and group E (DPD): run with groups 'D' / 'E' only
+    ('D01', NC, '(pyld_x.w[1] > pyld_y.w[1]) || ((pyld_x.w[1] == pyld_y.w[1]) && (pyld_x.w[0] >= pyld_y.w[0]))',
+     '(pyld_x.w[1] < pyld_y.w[1]) || ((pyld_x.w[1] == pyld_y.w[1]) && (pyld_x.w[0] >= pyld_y.w[0]))', 0,
+     ['bid128_total_order'], 'total_order: payload comparison of two negative NaNs reversed (> -> <)', 'D'),
+    ('D02', NC, '        if exp_x - exp_y > 19 {\n            sig_n_prime256 = __mul_128x128_to_256(&sig_x, &BID_TEN2K128[(exp_x - exp_y - 20) as usize]);\n            // the compensated significands are equal (ie "x and y represent the same\n            // entities") return 1 if (negative && expx > expy) ||\n            // (positive && expx < expy)\n            if (sig_n_prime256.w[3] == 0) && (sig_n_prime256.w[2] == 0)\n                && (sig_n_prime256.w[1] == sig_y.w[1])\n                && (sig_n_prime256.w[0] == sig_y.w[0]) {\n                // the case exp_x == exp_y',
+     '        if exp_x - exp_y > 18 {\n            sig_n_prime256 = __mul_128x128_to_256(&sig_x, &BID_TEN2K128[(exp_x - exp_y - 20) as usize]);\n            // the compensated significands are equal (ie "x and y represent the same\n            // entities") return 1 if (negative && expx > expy) ||\n            // (positive && expx < expy)\n            if (sig_n_prime256.w[3] == 0) && (sig_n_prime256.w[2] == 0)\n                && (sig_n_prime256.w[1] == sig_y.w[1])\n                && (sig_n_prime256.w[0] == sig_y.w[0]) {\n                // the case exp_x == exp_y', 0,
+     ['bid128_total_order'], 'total_order: switch-over 19 -> 18: exponent gap 19 indexes BID_TEN2K128[-1] (out of range)', 'D'),
+    ('D03', NC, '    x.w[1] &= 0x7fffffffffffffffu64;', '    x.w[1] &= 0x7ffffffffffffffeu64;', 0,
+     ['bid128_total_order_mag'], 'total_order_mag: sign mask of x also clears bit 0 of the high word', 'D'),
+    ('D04', 'bid128_scalbln.rs', 'val if val < n => 0x7fffffffi32,', 'val if val < n => 0x7ffffffei32,', 0,
+     ['bid128_scalbln'], 'scalbln: saturation value i32::MAX off by one', 'D'),
+    ('D05', 'bid128_scalbln.rs', 'val if val > n => 0x80000000i32,', 'val if val >= n => 0x80000000i32,', 0,
+     ['bid128_scalbln'], 'scalbln: guard > -> >= (every in-range n would be replaced by i32::MIN)', 'D'),
+    ('D06', 'bid128_scalbln.rs', '        _              => n1\n', '        _              => n1,\n', 0,
+     [], 'scalbln: trailing comma after the last match arm (harmless)', 'D'),
+    ('E01', 'bid_dpd.rs', 'd1000.w[0] = 0x9DB22D0E56041894u64;', 'd1000.w[0] = 0x9DB22D0E56041893u64;', 0,
+     ['bid_to_dpd128'], 'bid_to_dpd128: reciprocal constant ceil(2^128/1000) decremented (floor instead of ceiling)', 'E'),
+    ('E02', 'bid_b2d.rs', '    0x020u64, 0x021u64, 0x022u64,', '    0x020u64, 0x021u64, 0x023u64,', 0,
+     ['bid_to_dpd128'], 'bid_b2d.rs: one BID_B2D entry (row 22) changed', 'E'),
+    ('E03', 'bid_dpd.rs', '(BID_B2D[d5.w[0] as usize] >> 4)', '(BID_B2D[d5.w[0] as usize] >> 3)', 0,
+     ['bid_to_dpd128'], 'bid_to_dpd128: straddling declet shifted by 3 instead of 4', 'E'),
+    ('E04', 'bid_dpd.rs', 'd10 = BID_D2B[((trailing.w[0] >> 10) & 0x3ff) as usize];', 'd10 = BID_D2B[((trailing.w[0] >> 11) & 0x3ff) as usize];', 0,
+     ['bid_dpd_to_bid128'], 'bid_dpd_to_bid128: second declet taken from bit 11', 'E'),
+    ('E05', 'bid_dpd.rs', '(d9 * 1000000u64)', '(d9 * 10000000u64)', 0,
+     ['bid_dpd_to_bid128'], 'bid_dpd_to_bid128: weight of declet 2 is 10^7 instead of 10^6', 'E'),
+    ('E06', 'bid_b2d.rs', '    10, 11, 12, 13, 14, 15, 16, 17, 18, 19, 90, 91, 810, 811, 890, 891,', '    10, 11, 12, 13, 14, 15, 16, 17, 18, 19, 90, 91, 810, 811, 890, 892,', 0,
+     ['bid_dpd_to_bid128'], 'bid_b2d.rs: one BID_D2B entry (a non-canonical declet, row 31) changed', 'E'),
     # harmless edits: everything must still check
     ('H01', NC, None, None, 0, [], 'is_zero: local variable sig_x renamed to sx (whole function)'),
     ('H02', NC, '    let x_exp: BID_UINT64;\n    let y_exp: BID_UINT64;\n\n    #[cfg(target_endian = "big")]\n    let mut x = *x;',
@@ -74,7 +101,7 @@ MUTATIONS = [
 
 
 def apply_mutation(srcdir, m):
-    mid, fname, old, new, occ, _, _ = m
+    mid, fname, old, new, occ = m[:5]
     path = os.path.join(srcdir, fname)
     with open(path, encoding='utf-8') as f:
         text = f.read()
@@ -116,10 +143,20 @@ def main(argv):
     print('| id | edit | expected to fail | failed | others still pass | verdict | time | first line of the failure |')
     print('|---|---|---|---|---|---|---|---|')
     allok = True
+    base_cache = {}
     for m in MUTATIONS:
-        mid, fname, old, new, occ, expect, desc = m
+        mid, fname, old, new, occ, expect, desc = m[:7]
+        groups = m[7] if len(m) > 7 else 'A,B,C'
         if only and mid not in only:
             continue
+        if groups not in base_cache and groups != 'A,B,C':
+            tb0 = time.time()
+            bres = layerI.check_layerI(os.path.join(a.work, 'scratch_base_' + groups), a.repo_src, groups)
+            base_cache[groups] = all(r[1] for r in bres)
+            print('| base %s | unmodified sources, groups %s | (none) | %s | - | %s | %.0f s | |' % (
+                groups, groups, ', '.join(r[0] for r in bres if not r[1]) or '(none)',
+                'passes, as it should' if base_cache[groups] else 'UNEXPECTED', time.time() - tb0))
+            allok = allok and base_cache[groups]
         src = os.path.join(a.work, 'src_' + mid)
         if os.path.isdir(src):
             shutil.rmtree(src)
@@ -129,7 +166,7 @@ def main(argv):
                 shutil.copy(os.path.join(a.repo_src, f), os.path.join(src, f))
         apply_mutation(src, m)
         t1 = time.time()
-        res = layerI.check_layerI(os.path.join(a.work, 'scratch_' + mid), src)
+        res = layerI.check_layerI(os.path.join(a.work, 'scratch_' + mid), src, groups)
         dt = time.time() - t1
         failed = sorted(r[0] for r in res if not r[1])
         good = failed == sorted(expect)
